@@ -1,6 +1,7 @@
 //! Workload engine: executable model of the VolumeManager API + monitors over the medium.
 pub mod crash;
 pub mod engine;
+pub mod fault;
 pub mod gen;
 pub mod model;
 pub mod monitors;
